@@ -10,9 +10,10 @@ from persim import PersLandscapeApprox, PersLandscapeExact
 from ..core import Clause, Skip, close, is_real_number
 from ..oracles import matching as M
 from ..oracles import pl
-from ..strategies import finite, valid_family
+from ..strategies import dict_of, finite, valid_family
 from . import _land as LD
 
+FUZZ = ["exact_norm"]
 RULE = ("Exact landscapes from generated critical pairs (1..4 depths, ordinates of either sign, zero crossings at and between breakpoints, flat and "
         "nearly flat segments), differences / sums / multiples of them and of diagram landscapes; grid landscapes from generated value arrays; "
         "p in {1,2,3,4,5,10} and real p in [1,8].")
@@ -42,7 +43,7 @@ def norm_of(ctx, obj, p):
     return float(v)
 
 
-s_exact = st.fixed_dictionaries({"f": LD.pl_function(1, 4), "p": PS, "selfcheck": st.integers(0, 7)})
+s_exact = dict_of({"f": LD.pl_function(1, 4), "p": PS, "selfcheck": st.integers(0, 7)})
 
 
 def check_exact(case, ctx):
@@ -99,7 +100,7 @@ def check_approx(case, ctx):
     ctx.require(is_real_number(s) and float(s) == want, "sup_norm_grid", lambda: "sup_norm=%r, max |sample|=%r" % (s, want))
 
 
-s_laws = st.fixed_dictionaries({"a": LD.pl_function(1, 3), "b": LD.pl_function(1, 3), "p": PS,
+s_laws = dict_of({"a": LD.pl_function(1, 3), "b": LD.pl_function(1, 3), "p": PS,
                                 "c": st.one_of(st.sampled_from([-1.0, 2.0, -0.5, 3.0, 0.0]), finite(1e-3, 10), finite(-10, -1e-3))})
 
 
